@@ -32,7 +32,7 @@ FLAGS = ['-d', '--debug-parser', '--debug-generator', '--debug-filename']
 
 def plan(tier, seed):
     if tier == 'quick':
-        return {'n': 48, 'deadline': 55, 'case_timeout': 300,
+        return {'n': 48, 'deadline': 150, 'case_timeout': 300,
                 'floor': {'distinct_nontrivial': 500, 'cli_runs': 800, 'flag_sets_seen': 16, 'stdin_runs': 80, 'outfile_runs': 200,
                           'multi_source_runs': 150, 'failing_source_runs': 80, 'newline_or_nonascii_programs': 15}}
     return {'n': 700, 'deadline': 570, 'case_timeout': 300,
